@@ -268,6 +268,8 @@ static void enumerate(void) {
     int TL = mc_thorough() ? 5 : 4;
     mc_stage("token-sequences");
     for (int d = DEC_RLE_ALL; d <= DEC_RLE_STREAM; d++) token_sequences(d, TOK_RLE, 16, TL, 0x8100 + (uint64_t)d, d == DEC_RLE_PREFIXED ? "\x06\x00\x00\x00" : NULL, d == DEC_RLE_PREFIXED ? 4 : 0);
+    { static const char* PFX[] = { "\xff\xff\xff\xff", "\xfc\xff\xff\xff", "\xfb\xff\xff\xff", "\xf8\xff\xff\xff", "\xff\xff\xff\x7f", "\x00\x00\x00\x80", "\x00\x00\x00\x00", "\x01\x00\x00\x00", "\x02\x00\x00\x00", "\x07\x00\x00\x00" };
+      for (int pi = 0; pi < 10; pi++) token_sequences(DEC_RLE_PREFIXED, TOK_RLE, 16, TL - 1, 0x8190 + (uint64_t)pi, PFX[pi], 4); }     /* the 4-byte length prefix itself: wrap-around and off-by-one values */
     token_sequences(DEC_DICT, TOK_RLE, 16, TL, 0x8180, "\x02", 1); token_sequences(DEC_DICT, TOK_RLE, 16, TL - 1, 0x8181, "\x20", 1);
     token_sequences(DEC_DELTA32, TOK_DELTA, 18, TL + 1, 0x8200, NULL, 0); token_sequences(DEC_DELTA64, TOK_DELTA, 18, TL + 1, 0x8201, NULL, 0);
     token_sequences(DEC_DLBA, TOK_DELTA, 18, TL, 0x8202, NULL, 0); token_sequences(DEC_DBA, TOK_DELTA, 18, TL, 0x8203, NULL, 0);
